@@ -423,10 +423,10 @@ func (o *obs) time(ObsMask) {
 	// Known finding (DESIGN.md 5, D12): index timestamps are max(time, 0), so
 	// lookups go wrong once a live message is older than the Unix epoch. The
 	// disagreement is tagged by that input class.
-	tag := ""
+	preEpoch := false
 	for _, m := range w.M.Live {
 		if m.T < 0 {
-			tag = "pre-epoch times: "
+			preEpoch = true
 		}
 	}
 	for _, q := range w.TimeQueries() {
@@ -435,27 +435,45 @@ func (o *obs) time(ObsMask) {
 		off, ot, oerr := w.L.OffsetByTime(qt)
 		o.rec("getbytime %d -> %v %s %d %s", q, toModel(msg), errClass(err), off, errClass(oerr))
 		want, ok := w.M.FirstByTime(q)
+		// the finding is identified by what it predicts: the answer is the first live message
+		// whose time clamped at the epoch is not before the query; anything else is not D12
+		tag, otag := "", ""
+		if preEpoch {
+			var pred *model.Msg
+			for i := range w.M.Live {
+				if t := w.M.Live[i].T; t >= q || (t < 0 && q <= 0) {
+					pred = &w.M.Live[i]
+					break
+				}
+			}
+			if (pred != nil && err == nil && toModel(msg).Same(*pred)) || (pred == nil && errors.Is(err, klevdb.ErrNotFound)) {
+				tag = "pre-epoch times: "
+			}
+			if (pred != nil && oerr == nil && off == pred.Off && ot.UnixMicro() == pred.T) || (pred == nil && errors.Is(oerr, klevdb.ErrNotFound)) {
+				otag = "pre-epoch times: "
+			}
+		}
 		switch {
 		case ok:
 			if err != nil || !toModel(msg).Same(want) {
 				w.failf("C10", tag+"GetByTime(%d) = (%v, %v), want %v [live %v]", q, toModel(msg), err, want, w.M.Live)
 			}
 			if oerr != nil || off != want.Off || ot.UnixMicro() != want.T {
-				w.failf("C10", tag+"OffsetByTime(%d) = (%d, %d, %v), want (%d, %d)", q, off, ot.UnixMicro(), oerr, want.Off, want.T)
+				w.failf("C10", otag+"OffsetByTime(%d) = (%d, %d, %v), want (%d, %d)", q, off, ot.UnixMicro(), oerr, want.Off, want.T)
 			}
 		case len(w.M.Live) == 0:
 			if !(errors.Is(err, klevdb.ErrNotFound) || errors.Is(err, klevdb.ErrInvalidOffset)) {
 				w.failf("C10", tag+"GetByTime(%d) on a log without live messages = (%v, %v), want ErrNotFound or ErrInvalidOffset", q, toModel(msg), err)
 			}
 			if !(errors.Is(oerr, klevdb.ErrNotFound) || errors.Is(oerr, klevdb.ErrInvalidOffset)) {
-				w.failf("C10", tag+"OffsetByTime(%d) on a log without live messages = %v, want ErrNotFound or ErrInvalidOffset", q, oerr)
+				w.failf("C10", otag+"OffsetByTime(%d) on a log without live messages = %v, want ErrNotFound or ErrInvalidOffset", q, oerr)
 			}
 		default:
 			if !errors.Is(err, klevdb.ErrNotFound) {
 				w.failf("C10", tag+"GetByTime(%d) after all messages = (%v, %v), want ErrNotFound [live %v]", q, toModel(msg), err, w.M.Live)
 			}
 			if !errors.Is(oerr, klevdb.ErrNotFound) {
-				w.failf("C10", tag+"OffsetByTime(%d) after all messages = %v, want ErrNotFound", q, oerr)
+				w.failf("C10", otag+"OffsetByTime(%d) after all messages = %v, want ErrNotFound", q, oerr)
 			}
 		}
 	}
